@@ -103,7 +103,7 @@ def compute_unwindset(repo, crate, names, rules, features=None, log=None):
     return ",".join("%s:%d" % (a, b) for a, b in sorted(ids.items()))
 
 
-def run_harnesses(repo, crate, names, timeout_s=900, jobs=4, playback=False, extra_args=(), tag="run", features=None, unwind_rules=None):
+def run_harnesses(repo, crate, names, timeout_s=900, jobs=4, playback=False, extra_args=(), tag="run", features=None, unwind_rules=None, mem_gb=None):
     """names: harness function names (matched exactly on the last path segment).
     Returns dict name -> HarnessResult, plus raw log path."""
     ensure_playback_file()
@@ -137,7 +137,14 @@ def run_harnesses(repo, crate, names, timeout_s=900, jobs=4, playback=False, ext
     overall = timeout_s * ((len(names) + jobs - 1) // max(1, jobs)) + 600
     with open(logp, "w") as lf:
         lf.write("$ " + " ".join(cmd) + "\n"); lf.flush()
-        p = subprocess.Popen(cmd, cwd=repo, env=_env(), stdout=lf, stderr=subprocess.STDOUT, preexec_fn=_limits)
+        def _lim():
+            if mem_gb:
+                try: resource.setrlimit(resource.RLIMIT_AS, (mem_gb << 30, mem_gb << 30))
+                except (ValueError, OSError): pass
+                os.setsid()
+            else:
+                _limits()
+        p = subprocess.Popen(cmd, cwd=repo, env=_env(), stdout=lf, stderr=subprocess.STDOUT, preexec_fn=_lim)
         try:
             rc = p.wait(timeout=overall)
         except subprocess.TimeoutExpired:
